@@ -446,3 +446,20 @@ func synthString(bl, rl int) string {
 	}
 	return sb.String()
 }
+
+// SolveModel returns a model of the conjunction of pc (for native twins).
+func SolveModel(solver string, decls, pc, evals []string) (map[string]string, error) {
+	if solver == "" {
+		solver = "z3"
+	}
+	sv, err := NewSolver(solver, 20*time.Second)
+	if err != nil {
+		return nil, err
+	}
+	defer sv.Close()
+	r, m := sv.Check(decls, pc, evals)
+	if r != "sat" {
+		return nil, fmt.Errorf("path condition is %s", r)
+	}
+	return m, nil
+}
